@@ -55,6 +55,15 @@ xs:boolean (XPTY0004).  MapMergeOpt (profile "mergeopts"): the options map of ma
 entries only (default use-first), duplicates as xs:untypedAtomic / xs:anyURI, an illegal value (FOJS0005), a
 value of a wrong type.  Keys of types derived from xs:integer (xs:long, xs:unsignedByte) are in KeysL.
 
+Form (profile "forms"): the CALL FORM is a dimension of the specification.  Every map: / array: function and the
+dynamic call of a map / array item ($h(k)), on maps / arrays whose values / members are the empty sequence,
+single items and sequences of several items, is replayed in every form of spec Forms, spelled in XPath 3.1:
+direct F(A1..An) | ref F#n(A1..An) | let $f := F#n return $f(..) | partial-first F(?, A2..)(A1) | partial-rest
+F(A1, ?, ..)(A2..) | partial-all F(?, ..)(A1..An) | arrow A1 => F(A2..) | apply fn:apply(F#n, [A1, .., An]) |
+for-each fn:for-each(A1, F(?, A2..)) | array-for-each array:for-each([A1], F(?, A2..))?* | lookup $h?(K) | ulookup $h ! ?(K).  The spec law FormLaw (TLC) says the
+result does not depend on the form; the code must give the result of the specification state in every form
+(declared signatures of the function items are exercised only by the non-direct forms).
+
 The graph of one configuration is a forest (one tree per seed store); trees are replayed in a fork
 pool, with few seeds the pool is filled below the first operation.  A state is entered only along a
 transition that passed in both bindings (prefix hygiene); a failure seen on a store that earlier
@@ -104,6 +113,7 @@ TIERS = {
         ('lookupseq', _c('lookupseq', 1)),          # E?KS with a sequence of maps / arrays on the left
         ('arrtyped', _c('arrtyped', 1)),            # positions of derived integer types / non-integers (XPTY0004)
         ('mergeopts', _c('mergeopts', 1)),          # the options map of map:merge
+        ('forms', _c('forms', 1)),                  # every function in every call form (F#n, partial, arrow, fn:apply, ...)
         ('merge13-d1', _c('merge13', 1)),           # merge of two single-entry maps, 13 x 13 keys x 6 policies
         ('mapvals-d1', _c('mapvals', 1)),           # maps of <= 3 entries, nested values, all map functions
         ('arrays-d1', _c('arrays', 1)),             # arrays of <= 3 members, all array functions, positions -1..4
@@ -127,6 +137,7 @@ TIERS = {
         ('keysl-d2', _c('keysl', 2)),
         ('arrtyped', _c('arrtyped', 1)),
         ('mergeopts', _c('mergeopts', 1)),
+        ('forms', _c('forms', 1)),
         ('mergel-d1', _c('mergel', 1)),
         ('lookupseq', _c('lookupseq', 1)),
         ('mergex-d1', _c('mergex', 1)),
@@ -139,8 +150,8 @@ ALL_ACTIONS = [
     'MapConsA', 'MapPut', 'MapRemove', 'MapGet', 'MapContains', 'MapSize', 'MapKeys', 'MapEntry', 'MapForEachA',
     'MapFind', 'MapMerge', 'ArrConsSquare', 'ArrConsCurly', 'ArrGet', 'ArrPut', 'ArrAppend', 'ArrSubarray2',
     'ArrSubarray3', 'ArrRemove', 'ArrInsertBefore', 'ArrHead', 'ArrTail', 'ArrReverse', 'ArrJoin', 'ArrFlatten',
-    'ArrForEach', 'ArrFilter', 'ArrFold', 'ArrSize', 'Lookup', 'DeepEqual', 'Batch', 'LookupSeq', 'ArrTyped', 'MapMergeOpt']
-NSEED = {'arrtyped': 2, 'mergeopts': 2, 'lookupseq': 3, 'mergel': 2, 'merge': 2, 'merge13': 2, 'mergex': 2, 'deq': 2, 'mixed': 2, 'mixed1': 2, 'cons': 0, 'batch': 0}
+    'ArrForEach', 'ArrFilter', 'ArrFold', 'ArrSize', 'Lookup', 'DeepEqual', 'Batch', 'LookupSeq', 'ArrTyped', 'MapMergeOpt', 'Form']
+NSEED = {'forms': 2, 'arrtyped': 2, 'mergeopts': 2, 'lookupseq': 3, 'mergel': 2, 'merge': 2, 'merge13': 2, 'mergex': 2, 'deq': 2, 'mixed': 2, 'mixed1': 2, 'cons': 0, 'batch': 0}
 
 # ---------------------------------------------------------------------------------------
 # abstract values (as parsed from TLC): atom {'a','x'}, map {'m': (entries {'k','v'})}, array {'r': (values)}
@@ -627,7 +638,102 @@ def expression(b: Binder, action: str, args: tuple) -> str:
         return f'map:merge({b.hs(hs)}, {o})'
     if action == 'DeepEqual':
         return f'deep-equal({b.h(args[0])}, {b.h(args[1])})'
+    if action == 'Form':
+        return form_expression(b, *args)
     raise tla.MachineryError(f'no rendering for action {action}')
+
+
+FOLD_PARTS = {
+    'cat': ('array:fold-left', '()', 'function($acc, $x) { ($acc, $x) }'),
+    'cnt': ('array:fold-left', '0', 'function($acc, $x) { $acc + count($x) }'),
+    'last': ('array:fold-left', '()', 'function($acc, $x) { $x }'),
+    'rcat': ('array:fold-right', '()', 'function($x, $acc) { ($acc, $x) }'),
+    'rlast': ('array:fold-right', '()', 'function($x, $acc) { $x }'),
+}
+FORM_QNAMES = {
+    'MapPut': 'map:put', 'MapRemove': 'map:remove', 'MapGet': 'map:get', 'MapContains': 'map:contains', 'MapSize': 'map:size',
+    'MapKeys': 'map:keys', 'MapForEachA': 'map:for-each', 'MapFind': 'map:find', 'MapEntry': 'map:entry', 'MapMerge': 'map:merge',
+    'ArrGet': 'array:get', 'ArrPut': 'array:put', 'ArrAppend': 'array:append', 'ArrSubarray2': 'array:subarray',
+    'ArrSubarray3': 'array:subarray', 'ArrRemove': 'array:remove', 'ArrInsertBefore': 'array:insert-before',
+    'ArrHead': 'array:head', 'ArrTail': 'array:tail', 'ArrReverse': 'array:reverse', 'ArrFlatten': 'array:flatten',
+    'ArrForEach': 'array:for-each', 'ArrFilter': 'array:filter', 'ArrSize': 'array:size', 'ArrJoin': 'array:join',
+}
+
+
+def call_parts(b: Binder, name: str, hs: tuple, p: tuple):
+    """(QName of the function, texts of its XPath arguments A1..An) of one call of the grid FormCalls of the spec;
+    for name = 'Call' the function is the map / array item itself: (None, [$h, K])"""
+    if name == 'Call':
+        return None, [b.h(hs[0]), b.atom(p[0])]
+    if name == 'ArrFold':
+        q, zero, fn = FOLD_PARTS[p[0]]
+        return q, [b.h(hs[0]), zero, fn]
+    q = FORM_QNAMES[name]
+    if name in ('MapMerge', 'ArrJoin'):
+        a1 = b.hs(hs) if len(hs) > 1 else b.h(hs[0])
+        return q, [a1] + ([f"map{{'duplicates': '{p[0]}'}}"] if p else [])
+    if name == 'MapEntry':
+        return q, [b.atom(p[0]), b.value(p[1])]
+    a = [b.h(hs[0])]
+    if name in ('MapGet', 'MapContains', 'MapFind'):
+        a.append(b.atom(p[0]))
+    elif name == 'MapPut':
+        a += [b.atom(p[0]), b.value(p[1])]
+    elif name == 'MapRemove':
+        a.append(b.atom(p[0][0]) if len(p[0]) == 1 else b.atoms(p[0]))
+    elif name == 'MapForEachA':
+        a.append(MAP_FNS[p[0]])
+    elif name in ('ArrGet', 'ArrSubarray2'):
+        a.append(b.int(p[0]))
+    elif name == 'ArrSubarray3':
+        a += [b.int(p[0]), b.int(p[1])]
+    elif name in ('ArrPut', 'ArrInsertBefore'):
+        a += [b.int(p[0]), b.value(p[1])]
+    elif name == 'ArrAppend':
+        a.append(b.value(p[0]))
+    elif name == 'ArrRemove':
+        a.append(b.int(p[0][0]) if len(p[0]) == 1 else b.ints(p[0]))
+    elif name == 'ArrForEach':
+        a.append(ARR_FNS[p[0]])
+    elif name == 'ArrFilter':
+        a.append(ARR_PREDS[p[0]])
+    elif p:
+        raise tla.MachineryError(f'no rendering for the parameters of {name}')
+    return q, a
+
+
+def form_expression(b: Binder, form: str, name: str, hs: tuple, p: tuple) -> str:
+    """the XPath 3.1 spelling of one call in one call form (spec Forms)"""
+    q, a = call_parts(b, name, hs, p)
+    if q is None:                                   # the map / array item is the function: $h(K)
+        h, k = a
+        return {'direct': f'{h}({k})', 'let': f'let $f := {h} return $f({k})', 'partial-first': f'{h}(?)({k})',
+                'arrow': f'({k}) => {h}()', 'apply': f'fn:apply({h}, [{k}])', 'for-each': f'fn:for-each({k}, {h})',
+                'array-for-each': f'array:for-each([{k}], {h})?*',
+                'lookup': f'{h}?({k})', 'ulookup': f'{h} ! ?({k})'}[form]
+    n = len(a)
+    args = ', '.join(a)
+    if form == 'direct':
+        return f'{q}({args})'
+    if form == 'ref':
+        return f'{q}#{n}({args})'
+    if form == 'let':
+        return f'let $f := {q}#{n} return $f({args})'
+    if form == 'partial-first':
+        return f"{q}({', '.join(['?'] + a[1:])})({a[0]})"
+    if form == 'partial-rest':
+        return f"{q}({', '.join([a[0]] + ['?'] * (n - 1))})({', '.join(a[1:])})"
+    if form == 'partial-all':
+        return f"{q}({', '.join(['?'] * n)})({args})"
+    if form == 'arrow':
+        return f"({a[0]}) => {q}({', '.join(a[1:])})"
+    if form == 'apply':
+        return f'fn:apply({q}#{n}, [{args}])'
+    if form == 'for-each':
+        return f"fn:for-each({a[0]}, {q}({', '.join(['?'] + a[1:])}))"
+    if form == 'array-for-each':
+        return f"array:for-each([{a[0]}], {q}({', '.join(['?'] + a[1:])}))?*"
+    raise tla.MachineryError(f'no spelling for form {form} of {name}')
 
 
 def typed_position(i: int, ty: str) -> str:
@@ -702,6 +808,8 @@ def operands(action: str, args: tuple) -> list[int]:
         return sorted(set(args[0]))
     if action == 'DeepEqual':
         return sorted({args[0], args[1]})
+    if action == 'Form':
+        return sorted(set(args[2]))
     if action in ('MapEntry', 'MapConsA', 'ArrConsSquare', 'ArrConsCurly', 'Batch'):
         return []
     return [args[0]]
@@ -899,6 +1007,14 @@ def features(action, args, src_store, expected, binding, check, outcome) -> dict
         kinds = ['map' if is_map(src_store[h - 1]['v'][0]) else 'array' for h in hs]
         f.update(n_items=len(hs), item_kinds='/'.join(sorted(set(kinds))), lookup=ks[0],
                  n_keys=len(ks[1]) if ks[0] == 'parens' else 1)
+        return f
+    if action == 'Form':
+        form, name, hs, p = args
+        exp = expected[0]
+        f.update(form=form, act=name, n_params=len(p),
+                 result_kind=value_kind(exp['v']) if 'v' in exp else 'error',
+                 param_value_kinds='/'.join(sorted({value_kind(x) for x in p if isinstance(x, tuple) and
+                                                    all(isinstance(i, dict) for i in x)})) or 'none')
         return f
     if action == 'Batch':
         act, tmpl, params, xs = args
@@ -1572,19 +1688,22 @@ def run(chk: core.Check) -> None:
         'implementation-dependent points are nondeterminism of the spec (use-any, key retained by combine) or compared as bags (map:keys, map:for-each, ?* on maps, map:find)',
         'error codes compared for FOAY0001 FOAY0002 XQDY0137 FOJS0003 only; codepoint collation; date keys without timezone; numeric keys exactly representable in all numeric types',
         'python lists cross-check the array list model of the SPEC (disagreement = machinery failure)',
+        'call forms (spec Forms / FormLaw): the result of a map: / array: function or of the dynamic call of a map / array does not depend on the way the call is written (static call, F#n, let-bound item, partial application, arrow, fn:apply, fn:for-each, array:for-each, lookup); merge policies use-any / combine (nondeterministic) are not in that grid',
     ]
     load_samekey_table(chk, os.path.join(chk.scratch, 'tables'))
     self_test(chk, os.path.join(chk.scratch, 'selftest'))
     # the TLC runs are independent: a few at a time, while the replay (a fork pool) works through them in order
     from concurrent.futures import ThreadPoolExecutor
     with ThreadPoolExecutor(max_workers=4) as ex:
-        futs = [(name, consts, ex.submit(run_tlc_config, chk, name, consts)) for name, consts in TIERS[chk.tier]]
+        only = os.environ.get('C15_ONLY')          # debugging aid: run one configuration (no anti-vacuity check then)
+        futs = [(name, consts, ex.submit(run_tlc_config, chk, name, consts)) for name, consts in TIERS[chk.tier]
+                if not only or name in only.split(',')]
         for name, consts, fut in futs:
             run_config(chk, name, consts, tlc=fut.result())
     # anti-vacuity: every action of MapArray!Next must have fired (and been replayed) in this tier
     fired = {a for c in chk.coverage['configs'] for a in c['actions']}
     missing = sorted(set(ALL_ACTIONS) - fired)
-    if missing:
+    if missing and not only:
         raise tla.MachineryError(f'actions of MapArray that never fired in tier {chk.tier}: {missing}')
     chk.coverage['actions_fired'] = len(fired)
     chk.coverage['exhaustive'] = True
